@@ -405,6 +405,7 @@ func runC12(e *Engine, r *Report) {
 	ruleStopBeforeTerminate(e, r)
 	ruleQueueAdmission(e, r)
 	ruleLogQueryAnswered(e, r)
+	ruleResultTruthfulAPI(e, r)
 }
 
 // c12Detach: the notified request is detached from its table on every path.
